@@ -1,5 +1,6 @@
 import PGM.Generated.SlicesR
 import PGM.Proofs.Fold
+import PGM.Proofs.Ledger
 /-!
 # C05 — mechanisms never spend more privacy than the (ε, δ) budget
 
@@ -12,8 +13,14 @@ exponential-mechanism selection whose log-probabilities move by at most `ε'` co
 A selection run with score coefficient `c` per unit of quality on qualities of true sensitivity `Δ`
 moves log-probabilities by at most `2cΔ` (`PGM/Properties/C20.lean: em_logratio_le`).
 -/
+/- the proofs below are written to survive regeneration of `SlicesR` (`simp only [defs] <;> pgm_arith`),
+so some simp arguments / `<;>` / closing tactics are redundant for the current shape of the definitions -/
+set_option linter.unusedSimpArgs false
+set_option linter.unnecessarySeqFocus false
+set_option linter.unreachableTactic false
+set_option linter.unusedTactic false
 namespace PGM.C05
-open PGM.Gen.R
+open PGM.Gen.R PGM.Ledger
 
 noncomputable def gaussCost (Δ σ : ℝ) : ℝ := Δ ^ 2 / (2 * σ ^ 2)
 noncomputable def selectCost (ε' : ℝ) : ℝ := ε' ^ 2 / 8
@@ -36,18 +43,55 @@ theorem mst_budget (rho : ℝ) (ws1 ws2 : List ℝ) (r : ℕ) (hrho : 0 < rho)
     (h1 : (ws1.map (· ^ 2)).sum = 1) (h2 : (ws2.map (· ^ 2)).sum = 1)
     (hp1 : ∀ w ∈ ws1, 0 < w) (hp2 : ∀ w ∈ ws2, 0 < w) (hr : 2 ≤ r) :
     mstSpent rho ws1 ws2 r = rho := by
-  sorry
+  have hσ := mst_sigma_pos rho hrho
+  have hσ2 := mst_sigma_sq rho hrho
+  have hg1 : ∀ w ∈ ws1, gaussCost 1 (mst_measure_scale (mst_measure1_sigma (mst_sigma rho)) w)
+      = w ^ 2 / (2 * mst_sigma rho ^ 2) := by
+    intro w hw
+    have := (hp1 w hw).ne'
+    simp only [gaussCost, mst_measure_scale, mst_measure1_sigma] <;> pgm_arith
+  have hg2 : ∀ w ∈ ws2, gaussCost 1 (mst_measure_scale (mst_measure2_sigma (mst_sigma rho)) w)
+      = w ^ 2 / (2 * mst_sigma rho ^ 2) := by
+    intro w hw
+    have := (hp2 w hw).ne'
+    simp only [gaussCost, mst_measure_scale, mst_measure2_sigma] <;> pgm_arith
+  have hr1 := natCast_sub_one_pos r hr
+  have heps := mst_select_eps_sq rho r hrho hr1
+  have hsel : ∀ e, selectCost (realisedEps (mst_em_scores (mst_em_coef false) e mst_select_sensitivity 1) 1)
+      = e ^ 2 / 8 := by
+    intro e
+    simp only [selectCost, realisedEps, mst_em_scores, mst_em_coef, mst_select_sensitivity,
+      Bool.false_eq_true, reduceIte] <;> pgm_arith
+  unfold mstSpent
+  rw [sum_map_eq_sq_div ws1 _ _ hg1, sum_map_eq_sq_div ws2 _ _ hg2, hsel, heps, hσ2, h1, h2]
+  pgm_arith
 
 theorem mst_budget_no_selection (rho : ℝ) (ws1 ws2 : List ℝ) (hrho : 0 < rho)
     (h1 : (ws1.map (· ^ 2)).sum = 1) (h2 : (ws2.map (· ^ 2)).sum = 1)
     (hp1 : ∀ w ∈ ws1, 0 < w) (hp2 : ∀ w ∈ ws2, 0 < w) :
     mstSpent rho ws1 ws2 1 ≤ rho := by
-  sorry
+  have hσ := mst_sigma_pos rho hrho
+  have hσ2 := mst_sigma_sq rho hrho
+  have hg1 : ∀ w ∈ ws1, gaussCost 1 (mst_measure_scale (mst_measure1_sigma (mst_sigma rho)) w)
+      = w ^ 2 / (2 * mst_sigma rho ^ 2) := by
+    intro w hw
+    have := (hp1 w hw).ne'
+    simp only [gaussCost, mst_measure_scale, mst_measure1_sigma] <;> pgm_arith
+  have hg2 : ∀ w ∈ ws2, gaussCost 1 (mst_measure_scale (mst_measure2_sigma (mst_sigma rho)) w)
+      = w ^ 2 / (2 * mst_sigma rho ^ 2) := by
+    intro w hw
+    have := (hp2 w hw).ne'
+    simp only [gaussCost, mst_measure_scale, mst_measure2_sigma] <;> pgm_arith
+  have e : (1 : ℝ) / (2 * (3 / (2 * rho))) = rho / 3 := by pgm_arith
+  unfold mstSpent
+  rw [sum_map_eq_sq_div ws1 _ _ hg1, sum_map_eq_sq_div ws2 _ _ hg2, hσ2, h1, h2, e]
+  simp only [Nat.cast_one, sub_self, zero_mul, add_zero]
+  linarith
 
 /-- the noise scale reported to the estimator is the scale actually used -/
 theorem mst_reported_scale (sigma wgt : ℝ) :
     mst_measure_reported_noise sigma wgt = mst_measure_scale sigma wgt := by
-  sorry
+  simp only [mst_measure_reported_noise, mst_measure_scale] <;> pgm_arith
 
 /-! ### AIM -/
 
@@ -81,12 +125,88 @@ noncomputable def aimRoundCost (sigma eps : ℝ) : ℝ :=
 /-- the ledger variable `rho_used` is incremented by exactly the realised cost of the round -/
 theorem aim_ledger_matches (u eps sigma : ℝ) :
     aim_rho_used_step u eps sigma = u + aimRoundCost sigma eps := by
-  sorry
+  simp only [aim_rho_used_step, aimRoundCost, gaussCost, selectCost, realisedEps,
+    aim_noise_scale_round, aim_select_eps] <;> pgm_arith
 
 /-- the initial charge is the realised cost of the one-way releases -/
 theorem aim_init_matches (rho rounds : ℝ) (n : ℕ) :
     (aimInit rho rounds n).rho_used = (n : ℝ) * gaussCost 1 (aim_noise_scale_init (aim_sigma0 rounds rho)) := by
-  sorry
+  simp only [aimInit, aim_rho_used0, gaussCost, aim_noise_scale_init] <;> pgm_arith
+
+/-- the round cost in canonical form -/
+theorem aimRoundCost_eq (sigma eps : ℝ) : aimRoundCost sigma eps = 1 / (2 * sigma ^ 2) + eps ^ 2 / 8 := by
+  simp only [aimRoundCost, gaussCost, selectCost, realisedEps, aim_noise_scale_round, aim_select_eps] <;>
+    pgm_arith
+
+theorem aimRoundCost_nonneg (sigma eps : ℝ) : 0 ≤ aimRoundCost sigma eps := by
+  rw [aimRoundCost_eq]; positivity
+
+/-- the branch condition of `aim.py` is "remaining budget < twice the realised cost of a round" -/
+theorem aim_guard_iff (rho u sigma eps : ℝ) :
+    aim_last_round_guard rho u sigma eps ↔ rho - u < 2 * aimRoundCost sigma eps := by
+  have e : aimRoundCost sigma eps = aim_rho_used_step u eps sigma - u := by
+    rw [aim_ledger_matches]; ring
+  rw [e]
+  unfold aim_last_round_guard aim_rho_used_step
+  constructor <;> intro h <;> norm_num1 at h ⊢ <;> linarith
+
+/-- the last round (re-calibrated to the remaining budget `rem ≥ 0`) costs exactly `rem` -/
+theorem aim_last_round_cost (rem : ℝ) (hrem : 0 ≤ rem) :
+    aimRoundCost (aim_sigma_last rem) (aim_eps_last rem) = rem := by
+  rw [aimRoundCost_eq, aim_sigma_last_sq rem hrem, aim_eps_last_sq rem hrem]
+  by_cases h0 : rem = 0
+  · subst h0; norm_num
+  · pgm_arith
+
+/-- ledger invariant of the AIM loop -/
+def AimInv (rho : ℝ) (s : AimState) : Prop :=
+  s.rho_used ≤ rho ∧ (s.terminated = true → s.rho_used = rho)
+
+theorem aimInv_init (rho rounds : ℝ) (n : ℕ) (hrho : 0 < rho) (hrounds : 0 < rounds)
+    (hfit : 0.9 * (n : ℝ) ≤ rounds) : AimInv rho (aimInit rho rounds n) := by
+  refine ⟨?_, fun h => by simp [aimInit] at h⟩
+  rw [aim_init_matches]
+  have hG : ∀ σ, gaussCost 1 (aim_noise_scale_init σ) = 1 / (2 * σ ^ 2) := by
+    intro σ
+    simp only [gaussCost, aim_noise_scale_init] <;> pgm_arith
+  rw [hG, aim_sigma0_sq rounds rho hrho hrounds]
+  have e : (n : ℝ) * (1 / (2 * (rounds / (1.8 * rho)))) = 0.9 * n * rho / rounds := by
+    pgm_arith
+  rw [e, div_le_iff₀ hrounds]
+  nlinarith [mul_le_mul_of_nonneg_right hfit hrho.le]
+
+theorem aimInv_step (rho : ℝ) (s : AimState) (anneal : Bool) (h : AimInv rho s) :
+    AimInv rho (aimStep rho s anneal) := by
+  obtain ⟨hle, hterm⟩ := h
+  by_cases ht : s.terminated = true
+  · have : aimStep rho s anneal = s := by simp [aimStep, ht]
+    rw [this]; exact ⟨hle, hterm⟩
+  · by_cases hg : aim_last_round_guard rho s.rho_used s.sigma s.epsilon
+    · have hu : (aimStep rho s anneal).rho_used = aim_rho_used_step s.rho_used
+          (aim_eps_last (aim_remaining rho s.rho_used)) (aim_sigma_last (aim_remaining rho s.rho_used)) := by
+        simp [aimStep, ht, hg]
+      have hrem : aim_remaining rho s.rho_used = rho - s.rho_used := by
+        simp only [aim_remaining] <;> pgm_arith
+      have hrem0 : 0 ≤ aim_remaining rho s.rho_used := by rw [hrem]; linarith
+      have : (aimStep rho s anneal).rho_used = rho := by
+        rw [hu, aim_ledger_matches, aim_last_round_cost _ hrem0, hrem]; ring
+      exact ⟨this.le, fun _ => this⟩
+    · have hu : (aimStep rho s anneal).rho_used = aim_rho_used_step s.rho_used s.epsilon s.sigma := by
+        simp [aimStep, ht, hg]
+      have hT : (aimStep rho s anneal).terminated = false := by
+        simp [aimStep, ht, hg]
+      have hc := aimRoundCost_nonneg s.sigma s.epsilon
+      have hg' := (not_congr (aim_guard_iff rho s.rho_used s.sigma s.epsilon)).mp hg
+      rw [not_lt] at hg'
+      refine ⟨?_, fun h => by rw [hT] at h; exact absurd h (by simp)⟩
+      rw [hu, aim_ledger_matches]
+      linarith
+
+theorem aimInv_fold (rho rounds : ℝ) (n : ℕ) (outcomes : List Bool) (hrho : 0 < rho) (hrounds : 0 < rounds)
+    (hfit : 0.9 * (n : ℝ) ≤ rounds) :
+    AimInv rho (outcomes.foldl (aimStep rho) (aimInit rho rounds n)) :=
+  foldl_inv (AimInv rho) (aimStep rho) outcomes _ (aimInv_init rho rounds n hrho hrounds hfit)
+    (fun s b h => aimInv_step rho s b h)
 
 /-- **AIM never overspends**, for every number of rounds actually executed and every annealing
 history, provided the one-way marginals fit (`0.9·#oneway ≤ rounds` — the hypothesis the proof
@@ -94,14 +214,14 @@ forces; the excluded region is executed on the real code by the check) -/
 theorem aim_budget (rho rounds : ℝ) (n : ℕ) (outcomes : List Bool) (hrho : 0 < rho) (hrounds : 0 < rounds)
     (hfit : 0.9 * (n : ℝ) ≤ rounds) :
     (outcomes.foldl (aimStep rho) (aimInit rho rounds n)).rho_used ≤ rho := by
-  sorry
+  exact (aimInv_fold rho rounds n outcomes hrho hrounds hfit).1
 
 /-- … and once the last round has run, exactly ρ has been spent -/
 theorem aim_budget_exact_at_termination (rho rounds : ℝ) (n : ℕ) (outcomes : List Bool) (hrho : 0 < rho)
     (hrounds : 0 < rounds) (hfit : 0.9 * (n : ℝ) ≤ rounds)
     (hterm : (outcomes.foldl (aimStep rho) (aimInit rho rounds n)).terminated = true) :
     (outcomes.foldl (aimStep rho) (aimInit rho rounds n)).rho_used = rho := by
-  sorry
+  exact (aimInv_fold rho rounds n outcomes hrho hrounds hfit).2 hterm
 
 /-! ### MWEM+PGM -/
 
@@ -121,7 +241,29 @@ noncomputable def mwemRoundGauss (rho rounds alpha : ℝ) (bounded : Bool) : ℝ
 theorem mwem_budget_gauss (rho alpha : ℝ) (rounds : ℕ) (bounded : Bool) (hrho : 0 < rho)
     (hr : 0 < rounds) (ha0 : 0 < alpha) (ha1 : alpha < 1) :
     (rounds : ℝ) * mwemRoundGauss rho rounds alpha bounded = rho := by
-  sorry
+  have hR : (0 : ℝ) < rounds := by exact_mod_cast hr
+  have hrpr_eq : mwem_rho_per_round rho rounds = rho / rounds := by
+    simp only [mwem_rho_per_round] <;> pgm_arith
+  have hrpr : 0 < mwem_rho_per_round rho rounds := by rw [hrpr_eq]; positivity
+  have h1a : 0 < 1 - alpha := by linarith
+  have hσ2 := mwem_gau_sigma_sq alpha _ ha0 hrpr
+  have heps := mwem_gau_exp_eps_sq alpha _ h1a hrpr
+  have hm2 := mwem_gau_msens_sq bounded
+  have hG : ∀ m σ, gaussCost (trueL2 bounded) (mwem_gau_scale m σ)
+      = trueL2 bounded ^ 2 / (2 * (m ^ 2 * σ ^ 2)) := by
+    intro m σ
+    simp only [gaussCost, mwem_gau_scale] <;> pgm_arith
+  have hL2 : trueL2 bounded ^ 2 = if bounded then 2 else 1 := by
+    cases bounded <;> simp [trueL2]
+  have hS : ∀ e, selectCost (realisedEps (mwem_sel_score (mwem_select_eps e)
+      (mwem_sel_sensitivity (mwem_select_bounded bounded)) 1 0) (trueL1 bounded)) = e ^ 2 / 8 := by
+    intro e
+    cases bounded <;>
+    simp only [selectCost, realisedEps, mwem_sel_score, mwem_select_eps, mwem_sel_sensitivity,
+      mwem_select_bounded, trueL1, Bool.false_eq_true, reduceIte] <;> pgm_arith
+  simp only [mwemRoundGauss]
+  rw [hG, hS, hL2, hm2, hσ2, heps, hrpr_eq]
+  cases bounded <;> simp only [Bool.false_eq_true, reduceIte] <;> pgm_arith
 
 /-- pure-DP cost per round, Laplace noise -/
 noncomputable def mwemRoundLaplace (epsilon rounds alpha : ℝ) (bounded : Bool) : ℝ :=
@@ -134,7 +276,33 @@ noncomputable def mwemRoundLaplace (epsilon rounds alpha : ℝ) (bounded : Bool)
 theorem mwem_budget_laplace (epsilon alpha : ℝ) (rounds : ℕ) (bounded : Bool) (heps : 0 < epsilon)
     (hr : 0 < rounds) (ha0 : 0 < alpha) (ha1 : alpha < 1) :
     (rounds : ℝ) * mwemRoundLaplace epsilon rounds alpha bounded = epsilon := by
-  sorry
+  have hR : (0 : ℝ) < rounds := by exact_mod_cast hr
+  have _ := ha1
+  have hepr_eq : mwem_lap_eps_per_round epsilon rounds = epsilon / rounds := by
+    simp only [mwem_lap_eps_per_round] <;> pgm_arith
+  have hL : ∀ epr, trueL1 bounded / mwem_lap_scale (mwem_lap_msens bounded) (mwem_lap_sigma alpha epr)
+      = alpha * epr := by
+    intro epr
+    by_cases he : epr = 0
+    · subst he
+      cases bounded <;>
+      simp [trueL1, mwem_lap_scale, mwem_lap_msens, mwem_lap_sigma]
+    · have := ha0.ne'
+      cases bounded <;>
+      simp only [trueL1, mwem_lap_scale, mwem_lap_msens, mwem_lap_sigma, Bool.false_eq_true, reduceIte] <;>
+      pgm_arith
+  have hS : ∀ e, realisedEps (mwem_sel_score (mwem_select_eps e)
+      (mwem_sel_sensitivity (mwem_select_bounded bounded)) 1 0) (trueL1 bounded) = e := by
+    intro e
+    cases bounded <;>
+    simp only [realisedEps, mwem_sel_score, mwem_select_eps, mwem_sel_sensitivity,
+      mwem_select_bounded, trueL1, Bool.false_eq_true, reduceIte] <;> pgm_arith
+  have hE : ∀ epr, mwem_lap_exp_eps alpha epr = (1 - alpha) * epr := by
+    intro epr
+    simp only [mwem_lap_exp_eps] <;> pgm_arith
+  simp only [mwemRoundLaplace]
+  rw [hL, hS, hE, hepr_eq]
+  pgm_arith
 
 /-! ### Adaptive grid -/
 
@@ -149,17 +317,45 @@ noncomputable def adaSpent (rho1 rho2 rho3 : ℝ) (n1 n3 r : ℕ) : ℝ :=
 theorem ada_steps (rho1 rho2 rho3 : ℝ) (n1 n3 r : ℕ) (h1 : 0 < rho1) (h2 : 0 < rho2) (h3 : 0 < rho3)
     (hn1 : 0 < n1) (hn3 : 0 < n3) (hr : 2 ≤ r) :
     adaSpent rho1 rho2 rho3 n1 n3 r = rho1 + rho2 + rho3 := by
-  sorry
+  have hN1 : (0 : ℝ) < n1 := by exact_mod_cast hn1
+  have hN3 : (0 : ℝ) < n3 := by exact_mod_cast hn3
+  have hr1 := natCast_sub_one_pos r hr
+  have hs1 := ada_step1_sigma_sq rho1 n1 h1 hN1
+  have hs3 := ada_step3_sigma_sq n3 rho3 h3 hN3
+  have heps := ada_select_eps_sq rho2 r h2 hr1
+  have hG1 : ∀ σ, gaussCost 1 (ada_step1_scale σ) = 1 / (2 * σ ^ 2) := by
+    intro σ
+    simp only [gaussCost, ada_step1_scale] <;> pgm_arith
+  have hG3 : ∀ σ, gaussCost 1 (ada_step3_scale σ) = 1 / (2 * σ ^ 2) := by
+    intro σ
+    simp only [gaussCost, ada_step3_scale] <;> pgm_arith
+  have hsel : ∀ e, selectCost (realisedEps (ada_em_scores (ada_em_coef false) e ada_select_sensitivity 1 0) 1)
+      = e ^ 2 / 8 := by
+    intro e
+    simp only [selectCost, realisedEps, ada_em_scores, ada_em_coef, ada_select_sensitivity,
+      Bool.false_eq_true, reduceIte] <;> pgm_arith
+  unfold adaSpent
+  rw [hG1, hG3, hsel, heps, hs1, hs3]
+  pgm_arith
 
 /-- **Adaptive grid spends exactly ρ** with the default split … -/
 theorem ada_budget_default (rho : ℝ) (n1 n3 r : ℕ) (hrho : 0 < rho) (hn1 : 0 < n1) (hn3 : 0 < n3) (hr : 2 ≤ r) :
     adaSpent (ada_rho_step_default rho) (ada_rho_step2_default rho) (ada_rho_step3_default rho) n1 n3 r = rho := by
-  sorry
+  have e1 : ada_rho_step_default rho = rho / 3 := by simp only [ada_rho_step_default] <;> pgm_arith
+  have e2 : ada_rho_step2_default rho = rho / 3 := by simp only [ada_rho_step2_default] <;> pgm_arith
+  have e3 : ada_rho_step3_default rho = rho / 3 := by simp only [ada_rho_step3_default] <;> pgm_arith
+  have hpos : 0 < rho / 3 := by positivity
+  rw [e1, e2, e3, ada_steps _ _ _ n1 n3 r hpos hpos hpos hn1 hn3 hr]
+  ring
 
 /-- … and with any split strategy (fractions normalised to sum 1 by the code) -/
 theorem ada_budget_split (rho f1 f2 f3 : ℝ) (n1 n3 r : ℕ) (hrho : 0 < rho) (hf1 : 0 < f1) (hf2 : 0 < f2)
     (hf3 : 0 < f3) (hsum : f1 + f2 + f3 = 1) (hn1 : 0 < n1) (hn3 : 0 < n3) (hr : 2 ≤ r) :
     adaSpent (ada_rho_step1_split rho f1) (ada_rho_step2_split rho f2) (ada_rho_step3_split rho f3) n1 n3 r = rho := by
-  sorry
+  have e1 : ada_rho_step1_split rho f1 = rho * f1 := by simp only [ada_rho_step1_split] <;> pgm_arith
+  have e2 : ada_rho_step2_split rho f2 = rho * f2 := by simp only [ada_rho_step2_split] <;> pgm_arith
+  have e3 : ada_rho_step3_split rho f3 = rho * f3 := by simp only [ada_rho_step3_split] <;> pgm_arith
+  rw [e1, e2, e3, ada_steps _ _ _ n1 n3 r (by positivity) (by positivity) (by positivity) hn1 hn3 hr]
+  rw [← mul_add, ← mul_add, hsum, mul_one]
 
 end PGM.C05
